@@ -2,6 +2,7 @@ package main
 
 import (
 	"fmt"
+	"strings"
 
 	"verif/sim/simcore"
 )
@@ -225,6 +226,25 @@ func planC09(tier string, root *simcore.RNG) *plan {
 			sc.Sites["leaf.pre"] = lm
 			sc.Sites["leaf.post"] = lm
 		}
+		// keep the episode below ~40000 scheduling steps (about 20 s on the -race build):
+		// thin the leaf hooks first, then the evaluation hooks
+		{
+			est := func() int {
+				n := 2 * heavy / int(max(sc.Sites["eval.pre"], 1))
+				if lm := sc.Sites["leaf.pre"]; lm > 0 {
+					n += 8 * heavy / int(lm)
+				}
+				return n
+			}
+			for est() > 40000 && sc.Sites["leaf.pre"] > 0 && sc.Sites["leaf.pre"] < 64 {
+				sc.Sites["leaf.pre"] *= 2
+				sc.Sites["leaf.post"] = sc.Sites["leaf.pre"]
+			}
+			for est() > 40000 && sc.Sites["eval.pre"] < 256 {
+				sc.Sites["eval.pre"] *= 2
+				sc.Sites["eval.post"] = sc.Sites["eval.pre"]
+			}
+		}
 		sc.Sites["write"] = pick(r, []uint32{1, 4, 32})
 		if r.Intn(4) == 0 {
 			// the output paths already hold something else (an older, larger export)
@@ -238,6 +258,20 @@ func planC09(tier string, root *simcore.RNG) *plan {
 		}
 		if r.Intn(2) == 0 {
 			sc.Sites["auto"] = pick(r, []uint32{1, 2, 4})
+			// models with a lock per evaluation (the 2D cache, several lookups per point
+			// under rotation) park at every lock operation: thin the automatic hooks so
+			// that the episode stays below ~30000 steps
+			locks := 0
+			for _, g := range sc.Groups {
+				for _, j := range g {
+					if strings.Contains(j.Model, "cache") {
+						locks += 6 * j.Cells * j.Cells * j.Cells
+					}
+				}
+			}
+			for locks/int(sc.Sites["auto"]) > 30000 && sc.Sites["auto"] < 64 {
+				sc.Sites["auto"] *= 2
+			}
 		}
 		sc.Sites["close"] = 1
 		for _, h := range []string{"go.start", "worker.start", "mc.sent", "cons.tri", "cons.stl", "cons.stl.flush", "cons.3mf", "cons.3mf.encode", "cons.dxf", "cons.dxf.save", "cons.svg", "cons.svg.save"} {
